@@ -1,6 +1,302 @@
 import TTV.Model.Result
 import TTV.Model.ResC08
 import TTV.Spec.C08
-/-! # C08 — result adapters deliver each call once (theorems: work in progress) -/
+/-! # C08 — result adapters deliver each call once (work in progress) -/
 namespace TTV.Props.C08
+open TTV.Result TTV.ResC08 TTV.Spec.C08
+
+/-! ## what reaches a leaf -/
+/-- a `ThreadsafeForwardingResult` swallows `startTest`/`stopTest` and sends a whole bracket per outcome -/
+def tfrView (evs : List Call) : List Call :=
+  evs.flatMap fun
+    | .add k t a => [.startTest t, .add k t a, .stopTest t]
+    | _ => []
+
+theorem testEvs_append (a b : List Call) : testEvs (a ++ b) = testEvs a ++ testEvs b := by
+  simp [testEvs]
+
+theorem testEvs_idem (a : List Call) : testEvs (testEvs a) = testEvs a := by
+  simp [testEvs]
+
+theorem tfrView_append (a b : List Call) : tfrView (a ++ b) = tfrView a ++ tfrView b := by
+  simp [tfrView]
+
+@[simp] theorem testEvs_nil : testEvs [] = [] := rfl
+@[simp] theorem testEvs_add (k : Kind) (t : Nat) (a : Arg) (cs : List Call) :
+    testEvs (.add k t a :: cs) = .add k t a :: testEvs cs := rfl
+@[simp] theorem testEvs_startTest (t : Nat) (cs : List Call) :
+    testEvs (.startTest t :: cs) = .startTest t :: testEvs cs := rfl
+@[simp] theorem testEvs_stopTest (t : Nat) (cs : List Call) :
+    testEvs (.stopTest t :: cs) = .stopTest t :: testEvs cs := rfl
+@[simp] theorem testEvs_startTestRun (cs : List Call) : testEvs (.startTestRun :: cs) = testEvs cs := rfl
+@[simp] theorem testEvs_stopTestRun (cs : List Call) : testEvs (.stopTestRun :: cs) = testEvs cs := rfl
+@[simp] theorem testEvs_tags (n g : TagSet) (cs : List Call) : testEvs (.tags n g :: cs) = testEvs cs := rfl
+@[simp] theorem testEvs_time (d : TimeV) (cs : List Call) : testEvs (.time d :: cs) = testEvs cs := rfl
+@[simp] theorem testEvs_stop (cs : List Call) : testEvs (.stop :: cs) = testEvs cs := rfl
+@[simp] theorem testEvs_done (cs : List Call) : testEvs (.done :: cs) = testEvs cs := rfl
+@[simp] theorem testEvs_progress (cs : List Call) : testEvs (.progress :: cs) = testEvs cs := rfl
+@[simp] theorem testEvs_setFailfast (b : Bool) (cs : List Call) : testEvs (.setFailfast b :: cs) = testEvs cs := rfl
+
+/-! ## adapters emit call lists -/
+section emit
+variable {σ : Type} (I : Iface σ)
+
+theorem etodStop_emits (own : EtodOwn) (inner : σ) :
+    ∃ cs, (etodStop I own inner).2 = cs.foldl I.step inner ∧ testEvs cs = [] := by
+  unfold etodStop
+  split
+  · exact ⟨[.stop], rfl, rfl⟩
+  · exact ⟨[], rfl, rfl⟩
+
+theorem etodFinally_emits (p : EtodOwn × σ) :
+    ∃ cs, (etodFinally I p).2 = cs.foldl I.step p.2 ∧ testEvs cs = [] := by
+  unfold etodFinally
+  split
+  · exact etodStop_emits I p.1 p.2
+  · exact ⟨[], rfl, rfl⟩
+
+theorem finally_after (own : EtodOwn) (inner : σ) (cs : List Call) :
+    ∃ cs2, (etodFinally I (own, cs.foldl I.step inner)).2 = (cs ++ cs2).foldl I.step inner ∧
+      testEvs (cs ++ cs2) = testEvs cs := by
+  obtain ⟨cs2, h1, h2⟩ := etodFinally_emits I (own, cs.foldl I.step inner)
+  exact ⟨cs2, by simp [h1], by rw [testEvs_append, h2]; simp⟩
+
+theorem etodStep_emits (own : EtodOwn) (inner : σ) (c : Call) :
+    ∃ cs, (etodStep I own inner c).2 = cs.foldl I.step inner ∧
+      testEvs cs = (testEvs [c]).map (degradeCall I.caps) := by
+  cases c with
+  | add k t a =>
+    cases k <;> simp only [etodStep]
+    · -- success
+      refine ⟨[_], rfl, ?_⟩
+      cases a <;> simp [degradeCall, degradeKind, degradeArg]
+    · -- error
+      obtain ⟨cs2, h1, h2⟩ := finally_after I own inner [.add .error t (match a with
+        | .details d => if I.caps.details then a else detailsToExc d
+        | a => a)]
+      refine ⟨_, h1, ?_⟩
+      rw [h2]
+      cases a <;> simp [degradeCall, degradeKind, degradeArg]
+    · -- failure
+      obtain ⟨cs2, h1, h2⟩ := finally_after I own inner [.add .failure t (match a with
+        | .details d => if I.caps.details then a else detailsToExc d
+        | a => a)]
+      refine ⟨_, h1, ?_⟩
+      rw [h2]
+      cases a <;> simp [degradeCall, degradeKind, degradeArg]
+    · -- skip
+      by_cases hs : I.caps.skip
+      · cases a <;> simp only [hs] <;> refine ⟨[_], rfl, ?_⟩ <;>
+          simp [degradeCall, degradeKind, degradeArg, hs]
+      · simp only [hs]
+        refine ⟨[_], rfl, ?_⟩
+        simp [degradeCall, degradeKind, degradeArg, hs]
+    · -- xfail
+      by_cases hs : I.caps.xfail
+      · simp only [hs]
+        refine ⟨[_], rfl, ?_⟩
+        cases a <;> simp [degradeCall, degradeKind, degradeArg, hs]
+      · simp only [hs]
+        refine ⟨[_], rfl, ?_⟩
+        simp [degradeCall, degradeKind, degradeArg, hs]
+    · -- uxsuccess
+      by_cases hs : I.caps.uxs
+      · simp only [hs]
+        obtain ⟨cs2, h1, h2⟩ := finally_after I own inner [.add .uxsuccess t (match a with
+          | .details _ => if I.caps.details then a else .none
+          | _ => .none)]
+        refine ⟨_, h1, ?_⟩
+        rw [h2]
+        cases a <;> simp [degradeCall, degradeKind, degradeArg, hs]
+      · simp only [hs]
+        obtain ⟨cs2, h1, h2⟩ := finally_after I own inner [.add .failure t (.exc .synth)]
+        obtain ⟨cs3, h3, h4⟩ := etodFinally_emits I (etodFinally I (own, [Call.add .failure t (.exc .synth)].foldl I.step inner))
+        refine ⟨[.add .failure t (.exc .synth)] ++ cs2 ++ cs3, ?_, ?_⟩
+        · simp only [List.foldl_cons, List.foldl_nil] at h3 h1
+          simp only [Bool.not_false, ite_true] 
+          rw [h3, h1]; simp
+        · rw [testEvs_append, h2, h4]
+          simp [degradeCall, degradeKind, degradeArg, hs]
+  | startTest t => exact ⟨[.startTest t], rfl, rfl⟩
+  | stopTest t => exact ⟨[.stopTest t], rfl, rfl⟩
+  | startTestRun =>
+    simp only [etodStep]; split
+    · exact ⟨[.startTestRun], rfl, rfl⟩
+    · exact ⟨[], rfl, rfl⟩
+  | stopTestRun =>
+    simp only [etodStep]; split
+    · exact ⟨[.stopTestRun], rfl, rfl⟩
+    · exact ⟨[], rfl, rfl⟩
+  | tags n g =>
+    simp only [etodStep]; split
+    · exact ⟨[.tags n g], rfl, rfl⟩
+    · exact ⟨[], rfl, rfl⟩
+  | time d =>
+    simp only [etodStep]; split
+    · exact ⟨[.time d], rfl, rfl⟩
+    · exact ⟨[], rfl, rfl⟩
+  | progress =>
+    simp only [etodStep]; split
+    · exact ⟨[.progress], rfl, rfl⟩
+    · exact ⟨[], rfl, rfl⟩
+  | done =>
+    simp only [etodStep]; split
+    · exact ⟨[.done], rfl, rfl⟩
+    · exact ⟨[], rfl, rfl⟩
+  | stop =>
+    simp only [etodStep]
+    exact etodStop_emits I own inner
+  | setFailfast b =>
+    simp only [etodStep]; split
+    · exact ⟨[.setFailfast b], rfl, rfl⟩
+    · exact ⟨[], rfl, rfl⟩
+
+theorem testEvs_tfrBlock (own : TfrOwn) (k : Kind) (t : Nat) (a : Arg) :
+    testEvs (tfrBlock own k t a) = [.startTest t, .add k t a, .stopTest t] := by
+  unfold tfrBlock
+  split <;> split <;> simp [testEvs_append]
+
+theorem tfrStep_emits (own : TfrOwn) (inner : σ) (c : Call) :
+    ∃ cs, (tfrStep I own inner c).2 = cs.foldl I.step inner ∧ testEvs cs = tfrView (testEvs [c]) := by
+  cases c with
+  | add k t a => exact ⟨tfrBlock own k t a, rfl, by simp [testEvs_tfrBlock, tfrView]⟩
+  | startTestRun => exact ⟨[.startTestRun], rfl, rfl⟩
+  | stopTestRun => exact ⟨[.stopTestRun], rfl, rfl⟩
+  | stop => exact ⟨[.stop], rfl, rfl⟩
+  | done => exact ⟨[.done], rfl, rfl⟩
+  | startTest t => exact ⟨[], rfl, rfl⟩
+  | stopTest t => exact ⟨[], rfl, rfl⟩
+  | tags n g => exact ⟨[], rfl, rfl⟩
+  | time d => exact ⟨[], rfl, rfl⟩
+  | setFailfast b => exact ⟨[], rfl, rfl⟩
+  | progress => exact ⟨[], rfl, rfl⟩
+end emit
+
+/-! ## `Reach s st evs`: every leaf of the graph is in the state it gets from its initial state by some list of
+calls whose test events are `evs` as seen through the adapters above it (`ExtendedToOriginalDecorator`:
+degraded for its target; `ThreadsafeForwardingResult`: re-bracketed; everything else: unchanged) -/
+def LeafReach (s : Shape) (st : St s) (evs : List Call) : Prop :=
+  ∃ cs, st = run s (init s) cs ∧ testEvs cs = evs
+
+mutual
+def Reach : (s : Shape) → St s → List Call → Prop
+  | .sink f, st, evs => LeafReach (.sink f) st evs
+  | .tt ff, st, evs => LeafReach (.tt ff) st evs
+  | .text ff, st, evs => LeafReach (.text ff) st evs
+  | .tbt, st, evs => LeafReach .tbt st evs
+  | .etod c, (_, inner), evs => Reach c inner (evs.map (degradeCall (caps c)))
+  | .deco c, st, evs => Reach c st evs
+  | .tagger _ _ c, st, evs => Reach c st evs
+  | .tfr c, (_, inner), evs => Reach c inner (tfrView evs)
+  | .multi cs, (_, inner), evs => ReachL cs inner evs
+  | .e2s _, _, _ => True
+def ReachL : (cs : List Shape) → StL cs → List Call → Prop
+  | [], _, _ => True
+  | c :: cs, (x, xs), evs => Reach c x evs ∧ ReachL cs xs evs
+end
+
+theorem run_append (s : Shape) (st : St s) (a b : List Call) : run s st (a ++ b) = run s (run s st a) b := by
+  simp [run]
+
+theorem leafReach_steps (s : Shape) (st : St s) (e cs : List Call) (h : LeafReach s st e) :
+    LeafReach s (cs.foldl (step s) st) (e ++ testEvs cs) := by
+  obtain ⟨cs0, h1, h2⟩ := h
+  exact ⟨cs0 ++ cs, by rw [run_append, ← h1]; rfl, by rw [testEvs_append, h2]⟩
+
+theorem testEvs_cons_split (c : Call) (cs : List Call) : testEvs (c :: cs) = testEvs [c] ++ testEvs cs := by
+  rw [← testEvs_append]; rfl
+
+/-- from one call to a list of calls -/
+theorem lift (s : Shape)
+    (h1 : ∀ (st : St s) (e : List Call) (c : Call), Reach s st e → Reach s (step s st c) (e ++ testEvs [c])) :
+    ∀ (cs : List Call) (st : St s) (e : List Call), Reach s st e → Reach s (cs.foldl (step s) st) (e ++ testEvs cs) := by
+  intro cs
+  induction cs with
+  | nil => intro st e h; simpa using h
+  | cons c cs ih =>
+    intro st e h
+    have := ih (step s st c) (e ++ testEvs [c]) (h1 st e c h)
+    rw [List.append_assoc, ← testEvs_cons_split] at this
+    exact this
+
+mutual
+theorem reach_steps : ∀ (s : Shape), s.noStream = true → ∀ (cs : List Call) (st : St s) (e : List Call),
+    Reach s st e → Reach s (cs.foldl (step s) st) (e ++ testEvs cs)
+  | .sink f, _ => fun cs st e h => by
+      simp only [Reach] at h ⊢; exact leafReach_steps _ st e cs h
+  | .tt ff, _ => fun cs st e h => by
+      simp only [Reach] at h ⊢; exact leafReach_steps _ st e cs h
+  | .text ff, _ => fun cs st e h => by
+      simp only [Reach] at h ⊢; exact leafReach_steps _ st e cs h
+  | .tbt, _ => fun cs st e h => by
+      simp only [Reach] at h ⊢; exact leafReach_steps _ st e cs h
+  | .etod ch, hn => lift _ (fun st e c h => by
+      obtain ⟨own, inner⟩ := st
+      obtain ⟨em, h1, h2⟩ := etodStep_emits ⟨caps ch, step ch, failfastOf ch⟩ own inner c
+      have hstep : step (.etod ch) (own, inner) c
+          = ((etodStep ⟨caps ch, step ch, failfastOf ch⟩ own inner c).1, em.foldl (step ch) inner) := by
+        rw [← h1]; rfl
+      rw [hstep]
+      simp only [Reach] at h ⊢
+      have := reach_steps ch (by simpa [Shape.noStream] using hn) em inner _ h
+      rw [h2] at this
+      simpa using this)
+  | .tfr ch, hn => lift _ (fun st e c h => by
+      obtain ⟨own, inner⟩ := st
+      obtain ⟨em, h1, h2⟩ := tfrStep_emits ⟨caps ch, step ch, failfastOf ch⟩ own inner c
+      have hstep : step (.tfr ch) (own, inner) c
+          = ((tfrStep ⟨caps ch, step ch, failfastOf ch⟩ own inner c).1, em.foldl (step ch) inner) := by
+        rw [← h1]; rfl
+      rw [hstep]
+      simp only [Reach] at h ⊢
+      have := reach_steps ch (by simpa [Shape.noStream] using hn) em inner _ h
+      rw [h2] at this
+      simpa [tfrView_append] using this)
+  | .deco ch, hn => lift _ (fun st e c h => by
+      have hc := reach_steps ch (by simpa [Shape.noStream] using hn) [c] st e (by simpa [Reach] using h)
+      simp only [Reach] at h ⊢
+      cases c <;> first | simpa [step] using hc | simpa [step] using h)
+  | .tagger n g ch, hn => lift _ (fun st e c h => by
+      have hn' : ch.noStream = true := by simpa [Shape.noStream] using hn
+      have hc := reach_steps ch hn' [c] st e (by simpa [Reach] using h)
+      simp only [Reach] at h ⊢
+      cases c with
+      | startTest t =>
+        have := reach_steps ch hn' [.startTest t, .tags n g] st e h
+        simpa [step] using this
+      | done => simpa [step] using h
+      | setFailfast b => simpa [step] using h
+      | _ => simpa [step] using hc)
+  | .multi ss, hn => lift _ (fun st e c h => by
+      obtain ⟨own, inner⟩ := st
+      have hn' : Shape.noStreamL ss = true := by simpa [Shape.noStream] using hn
+      simp only [Reach] at h ⊢
+      have hc := reachL_step ss hn' inner e c h
+      cases c with
+      | progress => simpa [step] using h
+      | startTestRun =>
+        simp only [step]
+        have a1 := reachL_step ss hn' inner e (.setFailfast false) h
+        have a2 := reachL_step ss hn' _ _ (.setFailfast ((failfastL ss inner).headD false)) a1
+        have a3 := reachL_restore ss hn' _ _ (failfastL ss inner) a2
+        have a4 := reachL_step ss hn' _ _ .startTestRun a3
+        simpa using a4
+      | _ => simpa [step] using hc)
+  | .e2s _, hn => by simp [Shape.noStream] at hn
+theorem reachL_step : ∀ (ss : List Shape), Shape.noStreamL ss = true → ∀ (st : StL ss) (e : List Call) (c : Call),
+    ReachL ss st e → ReachL ss (stepL ss st c) (e ++ testEvs [c])
+  | [], _, _, _, _, _ => by simp [ReachL]
+  | s :: ss, hn, (x, xs), e, c, h => by
+      simp only [Shape.noStreamL, Bool.and_eq_true] at hn
+      simp only [ReachL, stepL] at h ⊢
+      exact ⟨by simpa using reach_steps s hn.1 [c] x e h.1, reachL_step ss hn.2 xs e c h.2⟩
+theorem reachL_restore : ∀ (ss : List Shape), Shape.noStreamL ss = true → ∀ (st : StL ss) (e : List Call) (saved : List Bool),
+    ReachL ss st e → ReachL ss (restoreL ss st saved) e
+  | [], _, _, _, _, _ => by simp [ReachL]
+  | s :: ss, hn, (x, xs), e, saved, h => by
+      simp only [Shape.noStreamL, Bool.and_eq_true] at hn
+      simp only [ReachL, restoreL] at h ⊢
+      exact ⟨by simpa using reach_steps s hn.1 [.setFailfast (saved.headD false)] x e h.1, reachL_restore ss hn.2 xs e _ h.2⟩
+end
+
 end TTV.Props.C08
